@@ -227,8 +227,8 @@ def r2_bracketing(r, facts):
                     descr.append('the caller\'s timeout')
                     allzero = False
                     continue
-                st = f.at(d)
-                e = lead.rvalue(st['rv']) if not f.is_term(d) else lead.call(st)
+                from .kernel import def_expr
+                e = def_expr(f, d, lead)
                 z = e[0] == 'agg' and e[1].endswith('Option::Some') and e[3] and e[3][0][0] == 'const' and str(e[3][0][2]).endswith('Duration::ZERO')
                 descr.append('Some(Duration::ZERO)' if z else str(e)[:60])
                 allzero = allzero and z
